@@ -198,10 +198,68 @@ def _lazy_user_epilogue(w, t) -> None:
     rec = w.call(a, "src", "put", arg=req)
     if rec.exc is not None or rec.ret is not True:
         return
+    epi = []
     for _ in range(1 + t.choose(4, "epilogue calls")):
-        w.poll(a, "src")
+        epi.append(w.poll(a, "src"))
     tid = h.transaction_id
     if tid is None or h.states.state.name != "BUSY":
+        return
+    if t.choose(2, "epilogue variant") == 1:
+        # (b) for the same kind of user: the state machine has generated a PDU that the user has not fetched yet when the
+        # cancel request is made. Either the request is refused with the documented UnretrievedPdusToBeSent and changes
+        # nothing, or it is accepted - then the EOF (cancel) must describe the file bytes that were really SENT
+        sent = 0
+        for r in epi:
+            for e in r.emitted:
+                if e.kind == "FD":
+                    sent = max(sent, e.info[1] + e.info[2])
+        a.nodrain = True
+        rp = w.poll(a, "src")
+        queued = h.states.packets_ready
+        rc = w.call(a, "src", "cancel", arg=tid)
+        a.nodrain = False
+        w.probe("C12.lazy_user_cancel_with_unfetched_pdu" if queued else "C12.lazy_user_cancel_nothing_queued")
+        if rc.exc is not None:
+            if not (queued and rc.exc.cls == "UnretrievedPdusToBeSent"):
+                w.violate("C12.a_cancel_raises", f"side=src {rc.exc!r} queued={queued}", "")
+            elif rc.pre.key() != rc.post.key():
+                w.violate("C12.a_refused_cancel_changes_state", f"side=src step={rc.pre.step}->{rc.post.step}", "")
+            # fetch what was left, then the request goes through
+            while h.get_next_packet() is not None:
+                pass
+            a.drained["src"] = True
+            return
+        want = rc.pre.busy and rc.pre.tid is not None and rc.pre.tid == (tid.source_id.value, tid.seq_num.value)
+        if rc.ret is not want:
+            w.violate("C12.a_return_value", f"side=src ret={rc.ret} want={want} queued={queued}", "")
+        if rc.ret is not True:
+            while h.get_next_packet() is not None:
+                pass
+            a.drained["src"] = True
+            return
+        # accepted although PDUs were queued: everything the handler hands out from now on is judged
+        out = []
+        while True:
+            ph = h.get_next_packet()
+            if ph is None:
+                break
+            out.append(ph)
+        a.drained["src"] = True
+        for ph in out:
+            pdu = ph.pdu
+            from cfdpsim.world import pdu_info, pdu_kind
+            k = pdu_kind(pdu)
+            inf = pdu_info(pdu)
+            if k == "FD":
+                sent = max(sent, inf[1] + inf[2])
+            elif k == "EOF":
+                if inf[1] != CANCEL_REQ:
+                    w.violate("C12.b_eof_condition", f"cond={inf[1]} (lazy user)", "")
+                if inf[2] != sent:
+                    w.violate("C12.b_eof_size", f"size={inf[2]} bytes handed out={sent} (cancel request while a PDU was not fetched yet)", "")
+                elif inf[3] != ref_checksum(int(w.cfg.ck), w.src_bytes[:sent]).hex():
+                    w.violate("C12.b_eof_checksum", f"prefix={sent} (lazy user)", "")
+                break
         return
     a.nodrain = True
     r1 = w.call(a, "src", "cancel", arg=tid)
